@@ -83,7 +83,10 @@ fn read_frequencies(src: &mut &[u8]) -> io::Result<Frequencies> {
             for _ in 0..len {
                 let f = order_0::read_frequencies(src)?;
                 frequencies[usize::from(sym)] = f;
-                sym += 1;
+
+                sym = sym.checked_add(1).ok_or_else(|| {
+                    io::Error::new(io::ErrorKind::InvalidData, "invalid symbol run length")
+                })?;
             }
         }
 
